@@ -896,11 +896,12 @@ type vfC13RawE2E struct {
 // vfC13RawVariants: per family, variant name -> (content, keyword that the feedback must contain; "" = well-formed)
 var vfC13RawVariants = map[string]map[string][2]string{
 	"connect-endstream": {
-		"ok-empty":      {`{}`, ""},
-		"ok-error":      {`{"error":{"code":"internal","message":"boom"},"metadata":{"x-a":["1"]}}`, ""},
-		"bad-code":      {`{"error":{"code":"bogus","message":"m"}}`, "not a recognized error code name"},
-		"invalid-key":   {`{"errr":{}}`, "invalid key"},
-		"metadata-type": {`{"metadata":{"x-a":"not-an-array"}}`, "metadata"},
+		"ok-empty":         {`{}`, ""},
+		"ok-error":         {`{"error":{"code":"internal","message":"boom"},"metadata":{"x-a":["1"]}}`, ""},
+		"bad-code":         {`{"error":{"code":"bogus","message":"m"}}`, "not a recognized error code name"},
+		"code-number-name": {`{"error":{"code":"code_17","message":"m"}}`, "not a recognized error code name"}, // (how an RPC library spells a code outside 1..16)
+		"invalid-key":      {`{"errr":{}}`, "invalid key"},
+		"metadata-type":    {`{"metadata":{"x-a":"not-an-array"}}`, "metadata"},
 	},
 	"grpcweb-trailers": {
 		"ok":         {"grpc-status: 0\r\n", ""},
@@ -914,6 +915,9 @@ var vfC13RawVariants = map[string]map[string][2]string{
 		"ok":            {`{"code":"invalid_argument","message":"boom"}`, ""},
 		"ok-details":    {`{"code":"internal","message":"m","details":[{"type":"google.protobuf.Empty","value":""}]}`, ""},
 		"bad-code":      {`{"code":"bogus","message":"m"}`, "not a recognized error code name"},
+		"code-17":       {`{"code":"code_17","message":"m"}`, "not a recognized error code name"},
+		"code-0":        {`{"code":"code_0","message":"m"}`, "not a recognized error code name"},
+		"code-upper":    {`{"code":"INTERNAL","message":"m"}`, "not a recognized error code name"},
 		"unknown-key":   {`{"code":"internal","mesage":"typo"}`, "invalid key"},
 		"not-an-object": {`["internal"]`, "connect error JSON"},
 	},
